@@ -66,7 +66,7 @@ def gen_world(rng):
 
 
 def gen_dev(rng):
-    k = rng.choice(["del_top", "del_top", "add_stmt", "add_stmt", "del_stmt", "add_file", "del_file", "move_stmt"])
+    k = rng.choice(["del_top", "del_top", "add_stmt", "add_stmt", "del_stmt", "add_file", "del_file", "move_stmt", "touch_cfg"])
     e = {"kind": k, "pick": rng.randrange(1000), "pick2": rng.randrange(1000)}
     if k in ("add_stmt", "add_file"):
         e["shape"] = rng.choice(["bare", "qual", "fmt", "kv", "multi"])
